@@ -59,6 +59,23 @@ def handle (op : String) (j : Json) : Except String Json := do
       | some out => Json.mkObj [("rows", natListList out)]
       | none => errJ "outside-genetic-code"
     pure (reply m (some s))
+  | "transcripts" =>
+    let T ← findTab "ACGTN"
+    let ref ← getNatList j "codes"
+    let ex ← getNatListList j "exons"
+    let exons ← ex.mapM (fun x => match x with
+      | [t, st, a, b] => pure (⟨t, st, a, b⟩ : Exon)
+      | _ => throw "bad exon")
+    let names := Json.arr ((groupRuns exons).map (fun g => str s!"t{(g.head?.map (·.tid)).getD 0}")).toArray
+    let m := match transcriptSeqs T ref exons with
+      | none => errJ "other:IndexError"
+      | some out => match Base.omap (decode T) out with
+        | some t => Json.mkObj [("names", names), ("rows", natListList t)]
+        | none => errJ "other:undecodable"
+    let s := match decode T ref with
+      | some t => Json.mkObj [("names", names), ("rows", natListList (specTranscripts t exons))]
+      | none => errJ "other:undecodable"
+    pure (reply m (some s))
   | _ => throw s!"C14: unknown op {op}"
 
 end Drv.C14
